@@ -24,7 +24,7 @@ from vf.props.c01 import stream
 ID = 'C17'
 LEVEL = 'exploration'
 MODES = ['threaded', 'local', 'remote']
-RULE = ('Hypothesis draws a scenario (role, requests, bodies up to 300 KB, mutated bytes, ending) and runs it under the three '
+RULE = ('Hypothesis draws a scenario (role, requests, bodies up to 300 KB, mutated bytes, ending incl. a client half-close right after its last request byte) and runs it under the three '
         'execution-mode drivers; transcripts must be identical. Non-trivial: the scenario moves >= 1 KiB or has >= 2 requests or '
         'ends on an error path; distinct by case hash. Evaluations count scenario x mode runs.')
 ASSUMPTIONS = ['the remote driver passes the client descriptor like Acceptor._work (addr, send_handle) does',
